@@ -218,7 +218,7 @@ func runC19(c *Ctx) {
 	// the line written
 	okLine := false
 	for _, ci := range CallsIn(tc, "fmt.Sprintf") {
-		if f, ok := ConstString(ci.Common().Args[0]); ok && strings.Contains(f, "filter=lfs") {
+		if f, ok := effectiveFormat(ci); ok && strings.Contains(f, "filter=lfs") {
 			okLine = strings.HasPrefix(f, "%s filter=lfs diff=lfs merge=lfs -text")
 			c.Check(okLine, "R5", "attribute-line", p.InstrPos(ci), "pattern followed by filter=lfs diff=lfs merge=lfs -text", "the attribute line written is "+fmt.Sprintf("%q", f)+": Git LFS recognises a tracked pattern by filter=lfs")
 		}
@@ -455,7 +455,7 @@ func c19Rewrite(c *Ctx, fn *ssa.Function, label string) {
 							}
 						}
 					}
-					c.Check(g && len(pass) > 0 && keyOK, "R4", label+":replacement-only-on-hit", p.InstrPos(in), "a line is replaced only when its own pattern is among the changed ones", "an existing line can be replaced although its own pattern was not changed")
+					c.Check(g && nonVacuous(pass) && keyOK, "R4", label+":replacement-only-on-hit", p.InstrPos(in), "a line is replaced only when its own pattern is among the changed ones", "an existing line can be replaced although its own pattern was not changed")
 				case fromLine:
 					keys = append(keys, "unchanged")
 				default:
@@ -485,4 +485,85 @@ var c19Canaries = []Canary{
 	{Name: "truncate-before-read", ExpectKey: "C19.R4#truncate-after-read", Edits: []Edit{{File: "commands/command_untrack.go", Find: "	data, err := os.ReadFile(\".gitattributes\")\n	if err != nil {\n		return\n	}\n\n	attributes := strings.NewReader(string(data))\n\n	attributesFile, err := os.Create(\".gitattributes\")\n	if err != nil {\n		Print(tr.Tr.Get(\"Error opening '.gitattributes' for writing\"))\n		return\n	}", Repl: "	data, _ := os.ReadFile(\".gitattributes\")\n\n	attributes := strings.NewReader(string(data))\n\n	attributesFile, err := os.Create(\".gitattributes\")\n	if err != nil {\n		Print(tr.Tr.Get(\"Error opening '.gitattributes' for writing\"))\n		return\n	}"}}},
 	{Name: "already-supported-ignores-subdir", ExpectKey: "C19.R5#already-supported", Edits: []Edit{{File: "commands/command_track.go", Find: "				if unescapeAttrPattern(known.Path) == path.Join(relpath, pattern) &&", Repl: "				if unescapeAttrPattern(known.Path) == path.Clean(pattern) &&"}}},
 	{Name: "wrong-attribute-line", ExpectKey: "C19.R5#attribute-line", Edits: []Edit{{File: "commands/command_track.go", Find: "\"%s filter=lfs diff=lfs merge=lfs -text%v%s\"", Repl: "\"%s diff=lfs merge=lfs filter=lfs -text%v%s\""}}},
+}
+
+// effectiveFormat returns the format of a fmt.Sprintf call with the %s / %v verbs whose operand is a constant
+// string replaced by that constant (so that `Sprintf("%s %s", x, constAttrs)` reads like "%s <attrs>").
+func effectiveFormat(ci ssa.CallInstruction) (string, bool) {
+	args := ci.Common().Args
+	if len(args) == 0 {
+		return "", false
+	}
+	f, ok := ConstString(args[0])
+	if !ok {
+		return "", false
+	}
+	var ops []ssa.Value
+	if len(args) > 1 {
+		ops = variadicOrdered(args[1])
+	}
+	var out strings.Builder
+	ai := 0
+	for i := 0; i < len(f); i++ {
+		if f[i] != '%' || i+1 >= len(f) {
+			out.WriteByte(f[i])
+			continue
+		}
+		if f[i+1] == '%' {
+			out.WriteString("%%")
+			i++
+			continue
+		}
+		verb := f[i+1]
+		if (verb == 's' || verb == 'v') && ai < len(ops) {
+			if s, isC := ConstString(Unwrap(ops[ai])); isC {
+				out.WriteString(s)
+				ai++
+				i++
+				continue
+			}
+		}
+		if verb == 's' || verb == 'v' || verb == 'd' || verb == 'q' {
+			ai++
+		}
+		out.WriteByte('%')
+		out.WriteByte(verb)
+		i++
+	}
+	return out.String(), true
+}
+
+// variadicOrdered lists the elements stored into the backing array of a variadic argument, by index.
+func variadicOrdered(v ssa.Value) []ssa.Value {
+	sl, ok := v.(*ssa.Slice)
+	if !ok {
+		return nil
+	}
+	al, ok := sl.X.(*ssa.Alloc)
+	if !ok {
+		return nil
+	}
+	byIdx := map[int64]ssa.Value{}
+	var max int64 = -1
+	for _, r := range Referrers(al) {
+		if ia, ok := r.(*ssa.IndexAddr); ok {
+			k, isK := ConstInt(ia.Index)
+			if !isK {
+				continue
+			}
+			for _, rr := range Referrers(ia) {
+				if st, ok := rr.(*ssa.Store); ok && st.Addr == ia {
+					byIdx[k] = st.Val
+					if k > max {
+						max = k
+					}
+				}
+			}
+		}
+	}
+	var out []ssa.Value
+	for i := int64(0); i <= max; i++ {
+		out = append(out, byIdx[i])
+	}
+	return out
 }
